@@ -66,6 +66,11 @@ CHECKS = {
    text="HintCodec.tla is the concrete encoder/decoder of the hint section with parameters as constants; TLC checks exhaustively at (K,OMEGA,N)=(3,4,6), over all 6^7 byte strings and all hint vectors: Decode accepts iff HintCanonical, accepted strings re-encode to themselves (non-malleable), Decode(Encode(h)) = h, every read stays inside the section. Conformance at the real parameters: genuine signatures under all signature-bit flips (quick: c, hint section, sampled z bits), public-key bit flips, wrong message, other key; hint re-encodings that denote the SAME vector non-canonically (swapped indices, non-zero padding, count tricks) and other corruptions; and signatures produced with the secret key by a signer living in the hook file that skips the z-norm test (everything consistent except ||z|| >= GAMMA1-BETA). TLC (TraceDilithiumVerify.tla) computes canonicity from the raw hint bytes itself and allows Verify = true only for the unmodified triple with canonical hints and in-range z; Open must agree with Verify.",
    note="Rejection of flipped z/c/pk bits rests on SHAKE-256 collision freeness; signatures with only a skipped low-bits test have no specified verdict (recorded only).",
    technique="explicit TLA+ spec of the hint codec (exhaustive at small parameters) + trace validation of the real verifier on mutated and specially signed inputs"),
+ "C15": dict(
+   level="model_checking", design_ref="6 (C15), 3.12",
+   text="Concurrent.tla models N goroutines issuing two-step (call/return) stateless calls, decodes that need the word lookup table, and Sign on per-goroutine private XMSS keys; a constant selects how the lookup table the code's FIXME asks for is built (none = today's per-call table, locked, racy). TLC checks HistoryFree (every return equals the sequential result) and independence of the private keys for every interleaving of 3 goroutines for none/locked, and - as a non-vacuity control executed on every run - finds the stale-read interleaving for racy. Conformance: a seeded pool of 74 distinct calls (XMSS/Dilithium verify, open, shared-key Dilithium Sign/Seal, address derivation/validation, mnemonic enc/dec, descriptors, key generation) is first run alone in one process (oracle), then in a FRESH process built with -race on 2..64 goroutines under GOMAXPROCS 1..16: a stampede phase releases all goroutines into the same call at once (first uses coincide), then seeded random mixes with per-goroutine private XMSS key scripts; TLC (TraceConcurrent.tla) requires per-goroutine call/return alternation, every result equal to the oracle, strictly increasing private-key indices, and no race report (race reports are appended to the trace as events).",
+   note="Interleavings of the real code are sampled; the race detector is happens-before based but only remembers recent accesses, which is why first uses are made to coincide; events are collected in goroutine-local slices because json/fmt go through sync.Pool (a synchronisation point that hides races).",
+   technique="explicit TLA+ spec + TLC exhaustive interleavings (with a seeded-bug control); trace validation of race-detector-instrumented concurrent runs against a sequential oracle"),
 }
 
 NOT_YET = {
